@@ -157,6 +157,7 @@ void World::do_op(const J &op)
 	if (k == "tun") {
 		std::string at = op.gets("at");
 		Task *t = S.task_by_name(at);
+		if (t && t->state == T_EXITED) for (auto &c : clients) if (c.task != t && c.task->host == t->host && c.task->state != T_EXITED) { t = c.task; break; }   // restarted instance on the same host
 		if (!t || t->state == T_EXITED) { S.count("op.tun.notask"); return; }
 		Bytes p = make_packet(op);
 		S.tracef("OFFER %s ser=%lld len=%zu", at.c_str(), (long long)op.geti("ser"), p.size());
@@ -165,6 +166,19 @@ void World::do_op(const J &op)
 	} else if (k == "tunhex") {
 		Task *t = S.task_by_name(op.gets("at", "srv"));
 		if (t && t->state != T_EXITED) { S.offer_tun(t, unhex(op.gets("hex"))); S.count("op.tunhex"); }
+	} else if (k == "restart") {
+		// the client program is stopped (SIGINT) and a fresh instance is started on the same host half a second later:
+		// total state loss on one side while the server still holds the old session
+		ClientInfo *old = nullptr;
+		for (auto &c : clients) if (c.task->name == op.gets("task", "c0")) old = &c;
+		if (!old || clients.size() >= 3 || old->task->state == T_EXITED) { S.count("op.restart.skipped"); return; }
+		S.signal_task(old->task, 2);
+		int idx = (int)clients.size();
+		ClientInfo ci; ci.index = idx; ci.host = old->host; ci.late = true;
+		ci.task = S.add_proc("c" + std::to_string(idx), old->host, CLIENT_MAINS[idx], old->task->args, S.now + (uint64_t)op.geti("after_us", 500000));
+		ci.task->client_index = idx;
+		clients.push_back(ci);
+		S.count("fault.restart");
 	} else if (k == "sigint") {
 		S.signal_task(S.task_by_name(op.gets("task")), 2);
 	} else if (k == "stall") {
